@@ -202,6 +202,17 @@ func (r *GeneratorInterceptor) BindRTCPReader(reader interceptor.RTCPReader) int
 }
 
 // ForcePLI sends a PLI request to the tracks matching the provided SSRCs.
+// It never blocks: a request that is still waiting for the loop is merged
+// with the new one, and requests are dropped once the interceptor is closed.
 func (r *GeneratorInterceptor) ForcePLI(ssrc ...uint32) {
-	r.immediatePLINeeded <- ssrc
+	for {
+		select {
+		case r.immediatePLINeeded <- ssrc:
+			return
+		case <-r.close:
+			return
+		case pending := <-r.immediatePLINeeded:
+			ssrc = append(append([]uint32{}, pending...), ssrc...)
+		}
+	}
 }
